@@ -30,6 +30,9 @@ static void canon(qlist_t *l, char *out, const char *after) {
 }
 static void observe(qlist_t *l, const model_t *m, const char *after) {
     int n = m->n;
+    errno = 0; if (l->addlast(l, NULL, 1) || errno != EINVAL) vc_viol("seq:einval", "addlast(NULL) not refused with EINVAL");
+    errno = 0; if (l->addfirst(l, "x", 0) || errno != EINVAL) vc_viol("seq:einval", "addfirst(size 0) not refused with EINVAL");
+    errno = 0; if (l->addat(l, n ? 1 : 0, NULL, 0) || errno != EINVAL) vc_viol("seq:einval", "addat(NULL) not refused with EINVAL");
     if ((int)l->size(l) != n) vc_viol("seq:size", "after %s: size() = %zu, expected %d", after, l->size(l), n);
     if (l->datasize(l) != m_datasize(m)) vc_viol("seq:datasize", "after %s: datasize() = %zu, expected %zu", after, l->datasize(l), m_datasize(m));
     for (int i = -n - 2; i <= n + 2; i++) for (int nm = 0; nm < 2; nm++) {
@@ -71,8 +74,6 @@ static void observe(qlist_t *l, const model_t *m, const char *after) {
         }
         if (bad || c != n) vc_viol("seq:walk", "after %s: getnext walk (newmem=%d) returned %d elements, expected the %d in order", after, nm, c, n);
     }
-    errno = 0; if (l->addlast(l, NULL, 1) || errno != EINVAL) vc_viol("seq:einval", "addlast(NULL) not refused with EINVAL");
-    errno = 0; if (l->addlast(l, "x", 0) || errno != EINVAL) vc_viol("seq:einval", "addlast(size 0) not refused with EINVAL");
 }
 static void m_insert(model_t *m, int pos, int e) { memmove(m->e + pos + 1, m->e + pos, sizeof(int) * (m->n - pos)); m->e[pos] = e; m->n++; }
 static void m_delete(model_t *m, int pos) { memmove(m->e + pos, m->e + pos + 1, sizeof(int) * (m->n - pos - 1)); m->n--; }
